@@ -82,4 +82,15 @@ pub open spec fn sel_ok(h: &HelperAttributesForCompareOp, tgt: CompareOp, t: &To
         None => uses(t) =~= Set::<int>::empty(),
     }
 }
+// C17: the Eq assertion is emitted for the field (or the selected key applied to it) unless eq/ord `by` is selected
+pub open spec fn eq_checker_ok(h: &HelperAttributesForCompareOp, t: &TokenStream) -> bool {
+    match sel(h, CompareOp::Eq) {
+        Some(a) => {
+            let at = attr_of(h, a);
+            if at.by.is_some() { uses(t) =~= Set::<int>::empty() }
+            else { at.key matches Some(k) && uses(t) =~= set![tmpl_id(&k)] }
+        }
+        None => uses(t) =~= Set::<int>::empty(),
+    }
+}
 }
